@@ -41,6 +41,10 @@ func (c *checker) sample(e *sim.Ev) {
 				// it raised its own term in an election it started after a concurrently handled
 				// heartbeat had already made it a follower of the previous term's leader
 				sig = "follower-names-non-leader-after-heartbeat-raced-election"
+			} else if c.server(e.S).leaderRacedTerm == t1 {
+				// same race, other entry point: the main loop was inside setCurrentTerm(t1) (slow stable
+				// store) when the fast path handled a heartbeat of the previous term's leader
+				sig = "follower-names-non-leader-after-heartbeat-raced-term-write"
 			}
 			c.violate("C18", sig, e.Seq, "%s/%d (follower, term %d) reports leader %q but the leader of term %d is %v", e.S, e.Ep, t1, id, t1, l)
 		}
